@@ -1110,7 +1110,8 @@ def oracles_C06(ctx, hints):
     # K2 through the subclass: header-less STANAG packet whose counter is 0x8___ (first data byte 0x8_), exactly filled
     run("mpeg_stanag", check_stanag, "STANAG4609",
         [{"fields": dict(stanag_valid(rng, False), stanag_counter=str(c))} for c in (0x8000, 0x8FFF, 0x8123)],
-        tagsfn=lambda a: {"heuristic": "optional_header"})
+        # the defect is PES.unpack's (inherited): same finding as K2, reached through the subclass
+        tagsfn=lambda a: {"class": "PES", "via": "STANAG4609", "heuristic": "optional_header"})
     ctx.count("oracle_evaluations", n)
     return fails
 
